@@ -44,6 +44,10 @@ type clusterCase struct {
 	Special       string          `json:"special,omitempty"`
 	InitialTarget byte            `json:"initial_target_first_byte"`
 	FreshGap      int             `json:"fresh_checkpoint_gap,omitempty"`
+	// GapsMS, if set, are the pauses before each edge is dialled
+	GapsMS []int `json:"gaps_ms,omitempty"`
+	// pre: branches a node validated and stored before its own (heavier) branch
+	pre map[int][]*chainlab.Node
 	// MaxOut overrides the outbound cap (0 = same as peer_cap)
 	MaxOut int `json:"max_outbound,omitempty"`
 	// HeaderBatch > 0: the winner is held by an honest lab peer (index N) that
@@ -108,6 +112,8 @@ func runC12(r *mon.Run, replay string) {
 	r.Floor("manager_calls_audited:AddValidatedV2Blocks", 5)
 	r.Floor("reorgs_observed", 10)
 	r.Floor("short_header_batches_served", int64(r.Pick(12, 200)))
+	r.Floor("clusters_with_peer_on_another_fork_as_block_worker", int64(r.Pick(4, 50)))
+	r.Floor("clusters_where_heaviest_chain_is_shorter", int64(r.Pick(3, 40)))
 	r.Floor("accepted_connections_within_caps_checked", int64(r.Pick(40, 600)))
 	r.Floor("clusters_with_tight_inbound_cap_and_outbound_connection", int64(r.Pick(4, 50)))
 }
@@ -163,6 +169,10 @@ func c12SpecialFor(i int) string {
 	switch i % 10 {
 	case 1: // sync distance larger than one header batch (honest lab peer serving short SendHeaders batches)
 		return "shortheaders"
+	case 4: // a peer on another fork answers a chunk request with blocks of its own best chain
+		return "otherfork"
+	case 6: // real difficulty: the unique sufficiently heavier branch is shorter than another one
+		return "heavyshort"
 	case 2: // tight inbound cap on nodes that also hold outbound connections; every edge is a bridge
 		return "tightcap"
 	case 3: // the winner's branch length sweeps the 100-block request split
@@ -344,7 +354,154 @@ func genTightCap(r *mon.Run, stream uint64) (clusterCase, *chainlab.Tree, []*cha
 	return cc, t, tips, make([]*chainlab.Node, cc.N)
 }
 
+// genOtherFork: S (node 0) sits on a prefix of branch X beyond the X/Y fork
+// point; A (node 1) holds all of X; B (node 2) validated X earlier but is on the
+// heavier branch Y. S is connected to A first and to B a moment later, so that
+// both are unsynced workers when S fetches the rest of X: B can serve the
+// checkpoint for the chunk base (it knows X), but the base is not on its best
+// chain, so its block answer continues along its own chain. That is legal and
+// must not get B banned; in the end everybody must be on Y, which S and A can
+// only get through the edge S-B.
+func genOtherFork(r *mon.Run, stream uint64) (clusterCase, *chainlab.Tree, []*chainlab.Node, []*chainlab.Node) {
+	rng := r.RNG(stream)
+	above := rng.IntN(3) != 0
+	var p chainlab.Params
+	trunkLen := 0
+	regime := "mix"
+	if above {
+		// every chunk base at or above the require height: checkpoint path
+		if rng.IntN(2) == 0 {
+			regime = "v2only"
+			p = chainlab.RandomParams(regime, rng)
+			trunkLen = 2 + rng.IntN(10)
+		} else {
+			p = chainlab.RandomParams(regime, rng)
+			trunkLen = int(p.Require) + 1 + rng.IntN(8)
+		}
+	} else {
+		// mirrored shape below the require height: header-comparison path
+		p = chainlab.RandomParams(regime, rng)
+		p.Allow = uint64(3 + rng.IntN(5))
+		p.Require = p.Allow + 400
+		p.FinalCut = p.Require + 2
+		trunkLen = int(p.Allow) - 1 + rng.IntN(6)
+	}
+	env := chainlab.NewEnv(p)
+	itarget := []byte{0x08, 0x10, 0x40, 0xFF}[rng.IntN(4)]
+	env.Net.InitialTarget = types.BlockID{itarget}
+	t := chainlab.NewTree(env, rng)
+	prof := chainlab.Profile{MaxTxns: 3}
+	cc := clusterCase{Stream: stream, Regime: regime, Params: p, Special: "otherfork", InitialTarget: itarget, N: 3, Topology: "line", Cap: 8, TrunkLen: trunkLen, Winner: 2}
+	fork := p2plab.GrowMixed(t, t.Root, trunkLen, 2, prof)
+	sTip := p2plab.GrowMixed(t, fork, 1+rng.IntN(4), 2, prof) // S is past the fork point, on X
+	x := p2plab.GrowMixed(t, sTip, 3+rng.IntN(30), 3, prof)
+	y := p2plab.Heavier(t, p2plab.GrowMixed(t, fork, int(x.Height-fork.Height), 3, prof), 1+rng.IntN(3), prof, x)
+	tips := []*chainlab.Node{sTip, x, y}
+	cc.pre = map[int][]*chainlab.Node{2: {x}}
+	// S-A first, S-B within the second before the block workers are started
+	ea, eb := [2]int{0, 1}, [2]int{0, 2}
+	if rng.IntN(2) == 0 {
+		ea = [2]int{1, 0}
+	}
+	if rng.IntN(2) == 0 {
+		eb = [2]int{2, 0}
+	}
+	cc.Edges = [][2]int{ea, eb}
+	cc.GapsMS = []int{0, 120 + rng.IntN(250)}
+	for i, n := range tips {
+		fh := chainlab.CommonAncestor(n, fork).Height
+		cc.Branches = append(cc.Branches, branchDesc{Node: i, ForkHeight: fh, Len: int(n.Height - fh), TipHeight: n.Height, TipNode: n.Idx, Checkpoint: -1, MaxSend: 100})
+	}
+	return cc, t, tips, make([]*chainlab.Node, 3)
+}
+
+// genHeavyShort: a network with a real difficulty (chainlab Params.HiDiff, v2
+// from the start): branch a is mined fast (difficulty climbs), branch b slowly
+// and is one to three blocks LONGER, but a is sufficiently heavier. Some nodes
+// hold b, one holds a, the rest the common trunk; everybody must end on a.
+func genHeavyShort(r *mon.Run, stream uint64) (clusterCase, *chainlab.Tree, []*chainlab.Node, []*chainlab.Node) {
+	rng := r.RNG(stream)
+	p := chainlab.RandomParams("v2only", rng)
+	p.HiDiff = true
+	env := chainlab.NewEnv(p)
+	t := chainlab.NewTree(env, rng)
+	cc := clusterCase{Stream: stream, Regime: "v2only-hidiff", Params: p, Special: "heavyshort", Cap: 8}
+	trunk := p2plab.Grow(t, t.Root, 4+rng.IntN(5), chainlab.Profile{MaxTxns: 2})
+	cc.TrunkLen = int(trunk.Height)
+	iv := env.Net.BlockInterval
+	var a, b *chainlab.Node
+	for try := 0; try < 4; try++ {
+		la := 30 + rng.IntN(12) + 4*try
+		lb := la + 1 + rng.IntN(3)
+		a, b = trunk, trunk
+		for i := 0; i < la; i++ {
+			a = t.ExtendEmpty(a, a.Block.Timestamp.Add(iv/3))
+		}
+		for i := 0; i < lb; i++ {
+			b = t.ExtendEmpty(b, b.Block.Timestamp.Add(iv*3))
+		}
+		if a.ChainValid && b.ChainValid && a.Height < b.Height && a.L.State.SufficientlyHeavierThan(b.L.State) {
+			break
+		}
+		a = nil
+	}
+	if a == nil {
+		cc.N = 0 // shape not reached
+		return cc, t, nil, nil
+	}
+	cc.N = 2 + rng.IntN(3)
+	tips := make([]*chainlab.Node, cc.N)
+	perm := rng.Perm(cc.N)
+	tips[perm[0]], tips[perm[1]] = a, b
+	cc.Winner = perm[0]
+	for _, i := range perm[2:] {
+		switch rng.IntN(3) {
+		case 0:
+			tips[i] = b // a second node on the longer, lighter branch
+		case 1:
+			tips[i] = trunk
+		default:
+			tips[i] = b.Ancestor(b.Height - uint64(1+rng.IntN(5)))
+		}
+	}
+	cc.Topology = []string{"line", "complete", "star"}[rng.IntN(3)]
+	order := rng.Perm(cc.N)
+	switch cc.Topology {
+	case "line":
+		for i := 0; i+1 < cc.N; i++ {
+			cc.Edges = append(cc.Edges, [2]int{order[i], order[i+1]})
+		}
+	case "star":
+		for i := 1; i < cc.N; i++ {
+			cc.Edges = append(cc.Edges, [2]int{order[0], order[i]})
+		}
+	default:
+		for i := 0; i < cc.N; i++ {
+			for j := i + 1; j < cc.N; j++ {
+				cc.Edges = append(cc.Edges, [2]int{order[i], order[j]})
+			}
+		}
+	}
+	for i := range cc.Edges {
+		if rng.IntN(2) == 0 {
+			cc.Edges[i] = [2]int{cc.Edges[i][1], cc.Edges[i][0]}
+		}
+	}
+	rng.Shuffle(len(cc.Edges), func(i, j int) { cc.Edges[i], cc.Edges[j] = cc.Edges[j], cc.Edges[i] })
+	for i, n := range tips {
+		fh := chainlab.CommonAncestor(n, trunk).Height
+		cc.Branches = append(cc.Branches, branchDesc{Node: i, ForkHeight: fh, Len: int(n.Height - fh), TipHeight: n.Height, TipNode: n.Idx, Checkpoint: -1, MaxSend: 100})
+	}
+	return cc, t, tips, make([]*chainlab.Node, cc.N)
+}
+
 func genCluster(r *mon.Run, stream uint64, special string) (clusterCase, *chainlab.Tree, []*chainlab.Node, []*chainlab.Node) {
+	if special == "otherfork" {
+		return genOtherFork(r, stream)
+	}
+	if special == "heavyshort" {
+		return genHeavyShort(r, stream)
+	}
 	if special == "tightcap" {
 		return genTightCap(r, stream)
 	}
@@ -543,6 +700,10 @@ func genCluster(r *mon.Run, stream uint64, special string) (clusterCase, *chainl
 
 func runCluster(r *mon.Run, stream uint64, special string) {
 	cc, t, tips, cps := genCluster(r, stream, special)
+	if cc.N == 0 {
+		r.Count("clusters_skipped:generator shape not reached", 1)
+		return
+	}
 	rng := rand.New(rand.NewPCG(uint64(r.Seed)+77, stream))
 	slot := p2plab.NextSlot()
 	act := p2plab.NewActivity()
@@ -554,7 +715,7 @@ func runCluster(r *mon.Run, stream uint64, special string) {
 	for i := 0; i < cc.N; i++ {
 		o := p2plab.NodeOpts{
 			Activity: act,
-			Name:     fmt.Sprintf("n%d", i), IP: p2plab.HonestIP(slot, i), Tree: t, Tip: tips[i], Checkpoint: cps[i],
+			Name:     fmt.Sprintf("n%d", i), IP: p2plab.HonestIP(slot, i), Tree: t, Tip: tips[i], PreTips: cc.pre[i], Checkpoint: cps[i],
 			SyncInterval: time.Duration(50+rng.IntN(50)) * time.Millisecond, DiscoveryInterval: time.Hour,
 			RPCTimeout: 3 * time.Second, MaxInbound: cc.Cap, MaxOutbound: maxOut, MaxSendBlocks: cc.Branches[i].MaxSend,
 			Jitter: time.Duration(cc.JitterUS) * time.Microsecond, JitterSeed: rng.Uint64(),
@@ -613,8 +774,12 @@ func runCluster(r *mon.Run, stream uint64, special string) {
 		return nodes[e[0]].Connect(lab.Addr)
 	}
 	var accepted [][2]int
-	for _, e := range cc.Edges {
-		time.Sleep(time.Duration(rng.IntN(30)) * time.Millisecond)
+	for ei, e := range cc.Edges {
+		if len(cc.GapsMS) == len(cc.Edges) {
+			time.Sleep(time.Duration(cc.GapsMS[ei]) * time.Millisecond)
+		} else {
+			time.Sleep(time.Duration(rng.IntN(30)) * time.Millisecond)
+		}
 		if lab != nil && (e[0] == cc.N || e[1] == cc.N) {
 			if err := connectLab(e); err != nil {
 				r.Count("initial_connect_errors", 1)
@@ -877,6 +1042,8 @@ func runCluster(r *mon.Run, stream uint64, special string) {
 			vsig += ":fresh-checkpoint-node"
 		} else if cc.Special == "shortheaders" {
 			vsig += ":short-header-batches"
+		} else if cc.Special == "heavyshort" {
+			vsig += ":heaviest-chain-is-shorter"
 		} else if small {
 			vsig += ":max-send-blocks-below-100"
 		}
@@ -886,6 +1053,31 @@ func runCluster(r *mon.Run, stream uint64, special string) {
 		} else {
 			r.Count("stalls_decided:"+wt.verdict, 1)
 			r.Violation(vsig, "honest connected nodes did not converge to the heaviest valid chain within the bound, and the cluster is "+wt.verdict, cc, map[string]any{"stuck": stuck, "liveness": wt.info(), "nodes": getReps(), "tree": summarize(t)})
+		}
+	}
+	if cls := honestBanClass(nodes); cls != "" {
+		// every node of a C12 cluster is honest: no ban is ever justified
+		var bans []string
+		for _, n := range nodes {
+			for _, b := range n.PS.Bans() {
+				bans = append(bans, fmt.Sprintf("%s banned %s: %s", n.Name, b.Addr, b.Reason))
+			}
+		}
+		r.Violation("honest-peer-banned:"+cls, "an honest node called PeerStore.Ban for an honest peer", cc, map[string]any{"bans": bans, "nodes": getReps(), "tree": summarize(t)})
+	}
+	if cc.Special == "otherfork" {
+		r.Count("clusters_with_peer_on_another_fork_as_block_worker", 1)
+		for _, c := range nodes[0].Mon.Calls() {
+			if c.Kind == "AddValidatedV2Blocks" {
+				r.Count("otherfork_chunks_through_checkpoint_path", 1)
+				break
+			}
+		}
+	}
+	if cc.Special == "heavyshort" {
+		r.Count("clusters_where_heaviest_chain_is_shorter", 1)
+		if converged {
+			r.Count("clusters_where_heaviest_chain_is_shorter_converged", 1)
 		}
 	}
 	for _, n := range nodes {
